@@ -86,8 +86,30 @@ class ZRec:
 
     def __init__(self, cls: str, get, set_):
         self.cls = cls
-        self.get = get
-        self.set = set_
+        self._get = get
+        self._set = set_
+        self.cache = None
+        try:
+            self.cache = get()
+        except Exception:  # noqa: BLE001
+            pass
+
+    def get(self):
+        """current value; when the slot this view pointed to is gone (its frame was popped) the
+        object lives on with its last value (ownership assumption OWN: no other alias mutated it)"""
+        try:
+            self.cache = self._get()
+        except (IndexError, AttributeError):
+            if self.cache is None:
+                raise
+        return self.cache
+
+    def set(self, t):
+        self.cache = t
+        try:
+            self._set(t)
+        except (IndexError, AttributeError):
+            pass
 
     @staticmethod
     def detached(cls, term):
@@ -220,6 +242,7 @@ class Repo:
     def find(self, key: str):
         """key = 'path/file.py:Class.method' or 'path/file.py:func' or '...:outer.<locals>.inner'."""
         rel, qual = key.split(':', 1)
+        qual = qual.split('#', 1)[0]
         node: Any = self.tree(rel)
         cls = None
         for part in qual.split('.'):
@@ -1534,15 +1557,21 @@ class Interp:
             if isinstance(v, ast.Constant):
                 parts.append(z3.StringVal(v.value))
             elif isinstance(v, ast.FormattedValue):
-                x = self.ev(v.value)
-                if v.format_spec is not None:
-                    self.oos('f-string format spec', n)
-                parts.append(self.str_of(x, v, repr_=(v.conversion == ord('r'))))
+                try:
+                    if v.format_spec is not None:
+                        self.oos('f-string format spec', n)
+                    x = self.ev(v.value)
+                    parts.append(self.str_of(x, v, repr_=(v.conversion == ord('r'))))
+                except OutOfSubset:
+                    # the text of a message is never relied upon: an unconstrained string
+                    parts.append(self.p.fresh('fmt', z3.StringSort()))
         if not parts:
             return z3.StringVal('')
         return parts[0] if len(parts) == 1 else z3.Concat(*parts)
 
     def str_of(self, x, node, repr_=False):
+        if isinstance(x, ExcV):
+            return self.w.uf('exc_str', z3.IntSort(), z3.StringSort())(x.eid)
         if isinstance(x, str) and not repr_:
             return z3.StringVal(x)
         if S.is_str(x) and not repr_:
@@ -1968,6 +1997,13 @@ class Interp:
         return v
 
     def const_attr(self, c: PyConst, attr, n):
+        if c.kind == 'traceback' and attr == 'tb_next':
+            # tb_next is None  <=>  the exception was raised by the call itself (argument binding), not inside the callee
+            e = c.obj
+            inside = e.info.get('inside')
+            if inside is None:
+                return None if e.origin is None else Val.vobj(z3.IntVal(0), z3.IntVal(0))
+            return z3.If(inside, Val.vobj(z3.IntVal(0), z3.IntVal(0)), Val.none)
         if c.kind == 'module':
             return self.global_name(attr, n)
         if c.kind in ('class', 'record'):
@@ -2014,6 +2050,8 @@ class Interp:
         return f(ident)
 
     def exc_attr(self, e: ExcV, attr, n):
+        if attr == '__traceback__':
+            return PyConst('traceback', 'tb', e)
         if attr in e.info:
             return e.info[attr]
         decl = self.w.registry.exc_attrs.get(attr)
@@ -2066,16 +2104,17 @@ class Interp:
     def call(self, fn, args, kwargs, n):
         from .contracts import Contract
 
+        from .contracts import VariantSet
         if isinstance(fn, BoundMeth):
             t = fn.target
-            if isinstance(t, Contract):
+            if isinstance(t, (Contract, VariantSet)):
                 return self.call_contract(t, fn.recv, args, kwargs, n)
             if isinstance(t, Closure):
                 return self.call_closure(t, fn.recv, args, kwargs, n)
             if isinstance(t, PyConst):
                 from . import builtins_model as B
                 return B.method(self, fn.recv, fn.name, t, args, kwargs, n)
-        if isinstance(fn, Contract):
+        if isinstance(fn, (Contract, VariantSet)):
             return self.call_contract(fn, None, args, kwargs, n)
         if isinstance(fn, Closure):
             return self.call_closure(fn, None, args, kwargs, n)
@@ -2224,7 +2263,7 @@ BUILTINS = {
     'len', 'isinstance', 'bool', 'int', 'str', 'min', 'max', 'range', 'all', 'any', 'getattr', 'hasattr',
     'callable', 'next', 'iter', 'enumerate', 'abs', 'repr', 'sorted', 'hash', 'issubclass', 'super', 'print', 'id',
     'ord', 'chr', 'zip', 'sum', 'old', 'int_ok', 'uint_ok', 'float_ok', 'implies', 'type', 'dict_with', 'dict_get',
-    'dict_has', 'seq_eq', 'out_ok', 'out_frame', 'out_ret', 'out_cut', 'out_fail_frame',
+    'dict_has', 'seq_eq', 'out_ok', 'out_frame', 'out_ret', 'out_cut', 'out_fail_frame', 'exc_inside', 'exc_is', 'boundcall',
 }
 
 
